@@ -16,6 +16,8 @@ CONSTANTS
 INVARIANT InvFunctional
 INVARIANT InvQuiescent
 INVARIANT InvUntouched
+INVARIANT InvHistoryIndependent
+INVARIANT InvFunctionalImpliesHistory
 INVARIANT InvWholeHistory
 INVARIANT InvFormsAgree
 INVARIANT InvViolationsExact
